@@ -203,6 +203,49 @@ def rating_histories(run, cols, regs):
                             theorem="C09_cache_hit_needs_equal_key")
 
 
+def memory_training_cases(run, cols):
+    """an in-memory training set (X, y) used for several trainings in one
+    process with a regressor that standardises its input: every fresh, equally
+    fitted curve gets the same rating, it equals the rating with the shipped
+    label the arrays were loaded from, and the caller's arrays stay as they
+    were"""
+    from nanite.rate.rater import IndentationRater
+    st = states(cols)
+    for reg in ["SVR (RBF kernel)", "SVR (linear kernel)"]:
+        key = f"memory-training:{reg}"
+        run.case({"scenario": "memory-training", "regressor": reg},
+                 kind="memory-training")
+        try:
+            with warnings.catch_warnings():
+                warnings.simplefilter("ignore")
+                path = IndentationRater.get_training_set_path(label="zef18")
+                X, y = IndentationRater.load_training_set(path=path)
+                X0, y0 = X.copy(), y.copy()
+                vals = [st["fitted"]().rate_quality(regressor=reg,
+                                                    training_set=(X, y))
+                        for _ in range(3)]
+                ref = st["fitted"]().rate_quality(regressor=reg,
+                                                  training_set="zef18")
+        except BaseException as e:
+            run.failing(SITE, key, f"raised {type(e).__name__}: {e}",
+                        payload={"kind": "rerun"})
+            continue
+        why = None
+        if not (np.array_equal(X, X0, equal_nan=True)
+                and np.array_equal(y, y0, equal_nan=True)):
+            why = ("the caller's training arrays were modified (max change "
+                   f"{float(np.nanmax(np.abs(X - X0))):.3g})")
+        elif len(set(vals)) != 1:
+            why = f"equally fitted fresh curves are rated {vals}"
+        elif vals[0] != ref:
+            why = (f"in-memory copy of zef18 rates {vals[0]}, the label "
+                   f"'zef18' {ref}")
+        if why:
+            run.failing(SITE, key, f"{reg} with an in-memory training set: "
+                        + why, payload={"kind": "rerun"},
+                        theorem="C09_cache_hit_needs_equal_key")
+
+
 def real_oracle(run, regs, cols, big_cols):
     for sname, mk in states(cols).items():
         for reg in regs:
@@ -367,6 +410,7 @@ def check(run):
                              "Decision Tree"] if run.tier == "quick" else
                   ["SVR (linear kernel)", "SVR (RBF kernel)", "Decision Tree",
                    "Extra Trees", "AdaBoost"])
+    memory_training_cases(run, big)
     rating_histories(run, big, ["Decision Tree", "Extra Trees"]
                      if run.tier == "quick" else
                      ["Decision Tree", "Extra Trees", "SVR (linear kernel)"])
